@@ -1,4 +1,4 @@
-import IwModel.Lemmas.JsonPatchErr
+import IwModel.Lemmas.JsonPatchDecode
 /-! # C15 — JSON Patch gives the RFC 6902 result and a failed patch changes nothing
 
 `Patch.*` is the model of `src/json/iwjson.c` with the `fix:` commits of design_notes/C15.md (tied to the code by
@@ -125,6 +125,33 @@ theorem binary_err_partial (doc : JVal) (ops : List Rfc.Op) (hu : UKJ doc)
   have := runOps_err_of_run (ofJ doc) ops (wf_ofJ doc) (uk_ofJ doc hu) hok (by rw [erase_ofJ]; exact hr)
   rw [finishBinary_err doc _ this]
   exact ⟨rfl, this⟩
+
+/-! ## From the patch *document* to the operations (`_jbl_create_patch`, `_jbl_ptr_pool`) -/
+
+/-- `_jbl_ptr_pool` reads RFC 6901 pointer texts: the text of a pointer (`/`-prefixed tokens, `~` → `~0`, `/` → `~1`)
+    is parsed back to its tokens; the one exception is a text ending in `/` after another token (rejected by the code;
+    pointer syntax is property C14's domain) -/
+theorem pointer_text_roundtrip (p : Ptr) (h : PtrOk p) : parsePtr (ptrText p) = .ok p := parsePtr_ptrText p h
+
+/-- `_jbl_create_patch` + the pointer loop of `_jbl_patch_node` decode the RFC 6902 patch document (array of
+    `{"op":…,"path":…[,"from":…][,"value":…]}` objects) to exactly the operations the theorems above speak about, so
+    `jbn_patch_auto` on the document is the operation loop on them. -/
+theorem patch_document_decoded (t : Node) (ops : List Rfc.Op) (hp : ∀ o ∈ ops, PtrOk (opPath o) ∧ PtrOk (opFrom o)) :
+    patchTree t (renderPatch ops) = runOps t (ops.map toPOp) := patchTree_render t ops hp
+
+/-- **End to end, binary form** (`jbl_patch_from_json` on the patch document): RFC 6902 accepts with a container result
+    ⇒ the holder ends up with exactly that result and success is reported; RFC 6902 rejects ⇒ an error is reported
+    and the holder is exactly what it was. -/
+theorem jbl_patch_rfc_partial (doc : JVal) (ops : List Rfc.Op) (hne : ops ≠ []) (hu : UKJ doc)
+    (hok : ∀ o ∈ ops, OpOk o ∧ opValueUK o) (hp : ∀ o ∈ ops, PtrOk (opPath o) ∧ PtrOk (opFrom o)) :
+    (∀ d', Rfc.run doc ops = some d' → isContainer d' = true → patchBinary doc (renderPatch ops) = (some d', .ok)) ∧
+    (Rfc.run doc ops = none → (∀ o ∈ ops, OpStrict o) →
+      (patchBinary doc (renderPatch ops)).1 = some doc ∧ (patchBinary doc (renderPatch ops)).2 ≠ .ok) := by
+  rw [patchBinary_render doc ops hne hp]
+  constructor
+  · intro d' hr hc; exact binary_rfc_partial doc ops d' hu hok hr hc
+  · intro hr hst
+    exact binary_err_partial doc ops hu (fun o ho => ⟨(hok o ho).1, (hok o ho).2, hst o ho⟩) hr
 
 /-! ## Missing targets are errors (the part of "fails ⇒ error" that needs no RFC model) -/
 
